@@ -931,14 +931,15 @@ def model_quantize(model,
       if not isinstance(quantizer, dict) or quantizer.get(q_name, None):
         # Only change activation layer if we will use a quantized activation.
 
+        orig_class_name = layer["class_name"]
         layer["class_name"] = "QActivation"
 
         # Remove relu specific configurations
         # remember that quantized relu's are always upper bounded.
 
-        if layer["class_name"] == "LeakyReLU":
+        if orig_class_name == "LeakyReLU":
           del layer["config"]["alpha"]
-        elif layer["class_name"] == "relu":
+        elif orig_class_name == "relu":
           del layer["config"]["max_value"]
           del layer["config"]["alpha"]
           del layer["config"]["threshold"]
